@@ -10,7 +10,7 @@ AST (python tuples)
               ("def", name, [(param, type)], rettype|None, body)
   expr      : ("int", n) ("in", k) ("bool", b) ("nil",) ("str", s) ("var", x)
               ("bin", op, l, r)   op in + - * / % < <= > >= == != && ||
-              ("not", e) ("neg", e) ("or", e, fallback) ("get", e)
+              ("not", e) ("neg", e) ("or", e, fallback) ("get", e) ("unwrapinto", name, e)
               ("call", name, [args]) ("selfcall", [args]) ("list", [elems]) ("index", e, int | varname)
 
 Semantics (what the language prescribes; sources: README, compiler/src/tests/*.rs):
@@ -234,6 +234,10 @@ class Interp:
             if v is NIL:
                 return self.expr(e[2], scopes, outer, me)
             return v
+        if k == "unwrapinto":
+            v = self.expr(e[2], scopes, outer, me)
+            self.assign(e[1], v, scopes)          # `a ?= e` stores the value of e into a ...
+            return v is not NIL                   # ... and is true exactly when that value is present
         if k == "get":
             v = self.expr(e[1], scopes, outer, me)
             if v is NIL:
@@ -305,6 +309,8 @@ def rexpr(e, inputs=None):
         return "(-%s)" % rexpr(e[1], inputs)
     if k == "or":
         return "((%s) or %s)" % (rexpr(e[1], inputs), rexpr(e[2], inputs))
+    if k == "unwrapinto":
+        return "(%s ?= %s)" % (e[1], rexpr(e[2], inputs))
     if k == "get":
         return "(get %s)" % rexpr(e[1], inputs)
     if k == "call":
@@ -337,7 +343,10 @@ def rstmts(stmts, ind, inputs=None):
         elif k == "assert":
             out.append("%sassert %s" % (t, rexpr(st[1], inputs)))
         elif k == "expr":
-            out.append("%s%s" % (t, rexpr(st[1], inputs)))
+            if st[1][0] == "unwrapinto":
+                out.append("%s%s ?= %s" % (t, st[1][1], rexpr(st[1][2], inputs)))
+            else:
+                out.append("%s%s" % (t, rexpr(st[1], inputs)))
         elif k == "return":
             out.append("%sreturn%s" % (t, (" " + rexpr(st[1], inputs)) if st[1] is not None else ""))
         elif k in ("break", "continue"):
